@@ -321,7 +321,9 @@ contract('GroupPath.give_part', props=['C08'], for_cls=['GroupPath'], args={'par
 # GroupOutput.give_part: the part leaves the group through the path it entered LAST (top of its stack); the stack is
 # popped iff a downstream of that path took the part.  g_top / g_n: top entry and height of the stack at entry;
 # g_n2 / g_stack: the stack when the path's exit side has answered (see the note at GroupPath.give_part).
-ghost_after('GroupOutput.give_part', '<entry>', g_k='0', g_n2='0', g_stack='seq(part._group_pathing)')
+ghost_after('GroupOutput.give_part', '<entry>', g_k='0', g_n2='0', g_stack='seq(part._group_pathing)',
+            g_left='seq(part._group_pathing)')
+ghost_after('GroupOutput.give_part', 'part._group_pathing.pop()', g_left='seq(part._group_pathing)')
 ghost_after('GroupOutput.give_part', 'did_pass = last_entered_group._pass_part_downstream(part)',
             g_n2='len(part._group_pathing)', g_stack='seq(part._group_pathing)')
 TOP = 'old(part._group_pathing[-1])'
@@ -345,17 +347,13 @@ contract('GroupOutput.give_part', props=['C08'], for_cls=['GroupOutput'], args={
                  'all(not trace_resb(old(trace_len()) + j) for j in range(trace_len() - old(trace_len()) - ite(result, 1, 0)))',
              'C02,C08/refused_only_after_every_downstream_of_that_path_refused':
                  'implies(not result, trace_len() == old(trace_len()) + old(len(part._group_pathing[-1]._downstream)))',
-             'C08/top_of_the_stack_popped_iff_the_part_left_the_group':
-                 'ite(result, len(part._group_pathing) == g_n2 - 1 and '
-                 '            all(part._group_pathing[j] == g_stack[j] for j in range(g_n2 - 1)), '
-                 '    seq(part._group_pathing) == g_stack)',
-             # what the property needs: the entry removed is the one of THIS group (the old top).  Not what the code does
-             # when the taker pushed an entry of its own (exit of one group wired directly into a path of the next group,
-             # or into another path of the same group): pop() then removes the taker's entry.  Reproduced natively.
-             'C08/entry_removed_is_the_one_of_this_group_even_if_the_taker_pushed_its_own':
-                 'implies(result and g_n2 >= old(len(part._group_pathing)), len(part._group_pathing) == g_n2 - 1 and '
-                 '  all(part._group_pathing[j] == g_stack[ite(j < old(len(part._group_pathing)) - 1, j, j + 1)] '
-                 '      for j in range(g_n2 - 1)))',
+             'C08/own_entry_removed_before_the_offer':
+                 'len(g_left) == old(len(part._group_pathing)) - 1 and '
+                 'all(g_left[j] == old(part._group_pathing[j]) for j in range(len(g_left)))',
+             'C08/entry_restored_iff_nobody_took_the_part':
+                 'ite(result, seq(part._group_pathing) == g_stack, '
+                 '    len(part._group_pathing) == g_n2 + 1 and part._group_pathing[-1] == old(part._group_pathing[-1]) and '
+                 '    all(part._group_pathing[j] == g_stack[j] for j in range(g_n2)))',
          })
 
 # GroupInput: entry side of a group -- a pass-through that writes nothing into the history; space notifications go to the
